@@ -7,6 +7,9 @@ props = [json.loads(l) for l in open(os.path.join(V, "properties.jsonl"))]
 REPSIM_NOTE = ("Trusted base: the instrumenter's rewrites (simrt locks/go/map order/timers) preserve jiva semantics; the sandbox's ext4 "
                "behaves like production for FIEMAP, O_DIRECT and punch-hole; the reference model (byte array + snapshot images) is right. "
                "Samples histories; not exhaustive.")
+CLUSTER_NOTE = ("Trusted base: the instrumenter's rewrites and simrt (locks with quiescence-time arbitration, simulated TCP/HTTP, timers); the "
+                "stubs listed in the evidence file (iSCSI frontend = workload, sync-agent/ssync/sfold = in-simulator sparse copier with the same REST contract, "
+                "startController wiring); process death = goroutines parked + fds nulled + directory renamed. Samples schedules and fault sequences.")
 CHECKS = {
  "C01": dict(engine="repsim", design="4 C01, 3.1", technique="deterministic simulation: seeded operation histories + puncher schedule vs. byte-array reference model",
    text="Seeded search over histories of writes/reads of every alignment, snapshots, removals, reverts, resize, reopen (preload on/off) and hole-puncher schedules on one real replica (real files, real FIEMAP/punch-hole) inside a fake-clock bubble; every read and a full-volume read after each chain mutation and after reopen are compared with a byte-array model. Finds short counter-examples (3-6 ops) for map/extent bugs; gives sampled, not exhaustive, assurance. The controller-side range check is exercised by the cluster engine when built."),
@@ -25,6 +28,21 @@ CHECKS = {
  "C15": dict(engine="rpcsim", design="4 C15, 3.5", technique="deterministic simulation: real rpc.Client vs scripted peer (reply order, error/EOF/unknown/duplicate replies, reset, FIN, torn/corrupt frames, black holes) + codec round trip under arbitrary segmentation",
    note="Trusted base: the simulated TCP stream (FIFO, no loss inside a stream) and the harness's independent frame parser; rpc timeouts run on the bubble's fake clock. Samples schedules and fault points; not exhaustive.",
    text="The real rpc.Client runs over a simulated connection against a scripted peer that answers pending requests in script-chosen order and kind, and injects resets, FIN, half-close, torn and corrupt frames and one-way black holes at script-chosen points; each completed operation must carry its own reply (payload is a function of its own offset), errors must surface as errors, every pending and later operation must finish within its own deadline + 3 s of simulated time after a fault, the close channel must be notified, and with a fault-free peer everything succeeds. Wire.Write -> independent parser -> Wire.Read round-trips generated frames under 6 segmentation policies; real client against real rpc.Server with a recording DataProcessor checks end-to-end attribution."),
+ "C02": dict(engine="clustersim", design="4 C02, 3.3", technique="deterministic simulation: real controller + N real replica processes on a simulated network; per-write majority oracle from replica directory images; faults inside in-flight I/O",
+   note=CLUSTER_NOTE,
+   text="For every initiator write the set of replicas attached when the write took effect is sampled at the controller's lock acquisition, and which replicas physically hold the write is read from their directories: an acknowledged write must be on a strict majority of the attached replicas including an RW one, replicas that missed it must be gone from the list, and after faults stop every RW replica's image must contain every acknowledged write (failed or in-flight writes are old-or-new only until the next acknowledged overwrite). Faults (kill, connection reset, one-way stall, partition, restart, disk replacement within the safe envelope) are placed inside in-flight I/O. RF 1-5. Sampled, not exhaustive. Known finding D12 (sub-4KiB write during rebuild) is reported as KNOWN-FINDING."),
+ "C03": dict(engine="clustersim", design="4 C03", technique="deterministic simulation: quorum gate oracle at the controller's lock-acquisition point + bounded liveness after faults stop",
+   note=CLUSTER_NOTE,
+   text="At the instant each write/sync/unmap takes the controller lock the controller's own replica list is sampled: with fewer than floor(RF/2)+1 RW entries the operation must fail and no frame may leave for any replica; at every quiescent point with the lock free the ReadOnly flag must agree with the RW count; after all faults stop and membership settles (<= 900 simulated seconds) a volume with a quorum must accept a write."),
+ "C04": dict(engine="clustersim", design="4 C04", technique="deterministic simulation: every read frame's target mode at send time + returned data vs. acknowledged-write register, reads during rebuild",
+   note=CLUSTER_NOTE,
+   text="Every read frame observed on a data connection must target a replica whose mode in the list sampled at the operation's start was RW; successful reads are compared sector by sector with the register of acknowledged writes (old-or-new only for in-doubt ranges); reads are issued while replicas fail, restart and rebuild. Known finding D12 is reported as KNOWN-FINDING when it is the cause."),
+ "C05": dict(engine="clustersim", design="4 C05", technique="deterministic simulation: fault placement before send / after send / after apply / idle, detector order via simulated lock arbitration",
+   note=CLUSTER_NOTE,
+   text="Kills, resets, stalls and partitions land before the request is sent, after send, after apply (reply lost) or while idle (only the ping monitor can notice); a write must succeed when a majority of the attached replicas applied it and their replies were delivered, no I/O frame may go to an address outside the controller's list, and acknowledged data must stay intact (C02's image oracle)."),
+ "C18": dict(engine="clustersim", design="4 C18", technique="deterministic simulation: membership invariants at every quiescent point with the controller lock free",
+   note=CLUSTER_NOTE,
+   text="At every quiescent point at which the controller lock is free: no duplicate address, at most RF replicas, at most one WO replica, RWReplicaCount equals the number of RW entries, ReadOnly agrees with it; every I/O frame belongs to an operation that holds the controller lock and targets a listed replica."),
 }
 
 def main():
@@ -42,7 +60,8 @@ def main():
         hooks=dict(guard="none in /repo: checks instrument a scratch copy of the working tree at check time (tools/instrument, rules R1-R8); /repo carries only 'fix:' commits",
                    enable="./check <ID> copies /repo's working tree to a scratch dir, runs bin/instrument on the copy and builds the simulator against it with go1.26.8",
                    baseline_off_cmd="cd /repo && go test -vet=off -count=1 ./util/...", source_commits=[], add_only=True),
-        engines=[dict(name="rpcsim", path="sim/rpcsim.go", serves_properties=["C15"], kind_free_text="real rpc.Client/Server/Wire over simulated TCP with a scripted peer"),
+        engines=[dict(name="clustersim", path="sim/clustersim.go", serves_properties=["C02","C03","C04","C05","C18"], kind_free_text="real controller + real `jiva replica` processes on simulated TCP/HTTP with fault injection, real ext4 directories"),
+                 dict(name="rpcsim", path="sim/rpcsim.go", serves_properties=["C15"], kind_free_text="real rpc.Client/Server/Wire over simulated TCP with a scripted peer"),
                  dict(name="repsim", path="sim/repsim.go", serves_properties=["C01","C06","C10","C11","C12","C16","C17"], kind_free_text="one real replica on real ext4 files in a synctest bubble, model-based, puncher schedule controlled")],
         checks=checks, not_applicable=na,
         notes="VERIF_SEED selects the search seed; VERIF_BUDGET (seconds) and VERIF_WORKERS override the tier defaults. Exit 2 = build/instrumentation/watchdog trouble.")
